@@ -592,6 +592,12 @@ def forward_signatures(func, calls, args, kwargs, sig):
 
 
 def autoforwards_partial(par, args, kwargs):
+    try:
+        # what is discovered narrows parameter kinds: whether the partial
+        # object can take its own arguments is for the real parameters to say
+        _signatures.signature(par)
+    except ValueError:
+        raise UnknownForwards
     sig = autoforwards(par.func, par.args, {})
     try:
         return _signatures._mask(
